@@ -274,6 +274,54 @@ func c02Gen(g *Gen) {
 		}
 	}
 
+	// ---- family A2: every pair of faults in short stories (the second one hits the recovery after the first) ----
+	{
+		type fault struct {
+			send bool
+			idx  int
+			out  int
+		}
+		for n := 2; n <= g.Pick(2, 3); n++ {
+			var fs []fault
+			for i := 0; i < 2*n; i++ {
+				for _, o := range []int{cSendErr, cSendBlock} {
+					fs = append(fs, fault{true, i, o})
+				}
+				for _, o := range []int{cAckErr, cAckBlock, cAckGarbled, cAckUnknown} {
+					fs = append(fs, fault{false, i, o})
+				}
+			}
+			for a := 0; a < len(fs); a++ {
+				for b := a + 1; b < len(fs); b++ {
+					if fs[a].send == fs[b].send && fs[a].idx == fs[b].idx {
+						continue
+					}
+					if !g.Thorough() && (a*31+b*17)%4 != 0 {
+						continue // quick tier: a quarter of the pairs
+					}
+					stops := []int{-1}
+					if g.Thorough() {
+						stops = append(stops, 3+(a+b)%(4*n), 6+(a*7+b)%(6*n))
+					} else if (a+b)%3 == 0 {
+						stops = append(stops, 3+(a+b)%(5*n))
+					}
+					for _, stop := range stops {
+						s := &c02Scn{N: n, Cap: 2, Stop: stop, StopRev: (a + b + stop) & 1, StopGap: (a + b) % 3,
+							Send: c02Fill(2*n, 0), Ack: c02Fill(2*n, 0)}
+						for _, f := range []fault{fs[a], fs[b]} {
+							if f.send {
+								s.Send[f.idx] = f.out
+							} else {
+								s.Ack[f.idx] = f.out
+							}
+						}
+						add(1, "A2:twofaults", s)
+					}
+				}
+			}
+		}
+	}
+
 	// ---- family B: random longer scripts ----
 	nB := g.Pick(250, 20000)
 	for i := 0; i < nB; i++ {
